@@ -18,6 +18,7 @@ mod gen;
 mod oracle;
 mod posix;
 mod prng;
+mod refmodel;
 mod scn;
 mod shrink;
 mod spec;
@@ -421,6 +422,8 @@ fn cmd_replay(args: &[String]) -> i32 {
 }
 
 fn cmd_merge(args: &[String]) -> i32 {
+    // no library code runs here: the allocation cap (crash containment) does not apply
+    alloc::set_cap(usize::MAX);
     let dir = &args[0];
     let mut sets: BTreeMap<&str, Vec<u64>> = BTreeMap::new();
     if let Ok(rd) = std::fs::read_dir(dir) {
